@@ -235,6 +235,7 @@ def run_stream(name, requests, workdir, nworkers=NCPU, compare=None, weight=None
             futs.append(ex.submit(_serve, DRIVER, rq, mo))
         rcs = [f.result() for f in futs]
     seen = set()
+    selfcases = []
     for (rq, im, mo), ch in zip(files, chunks):
         mo_lines = open(mo).read().split("\n")
         im_lines = open(im).read().split("\n") if not model_only else mo_lines
@@ -258,6 +259,8 @@ def run_stream(name, requests, workdir, nworkers=NCPU, compare=None, weight=None
             same = compare(req, iresp, ml) if compare else (iresp == ml)
             if not same:
                 res.mismatches.append(Mismatch(req, iresp, ml))
+            elif len(selfcases) < 6 and ml not in ("unmodelled", "bad-request", "err", "") and (k % 97 == 0 or len(ch) < 97):
+                selfcases.append((req, iresp, ml))
             kind = response_kind(iresp)
             res.kinds[kind] = res.kinds.get(kind, 0) + 1
             if kind not in ("err", "bad-request", "unmodelled") and req not in seen:
@@ -269,6 +272,21 @@ def run_stream(name, requests, workdir, nworkers=NCPU, compare=None, weight=None
             except OSError:
                 pass
     res.distinct = len(seen)
+    # self-test of the comparison: a deliberately wrong model answer for requests of this run must be
+    # reported as a difference (a comparison that accepts anything would make the stream worthless)
+    res.selftests, res.selftest_failures = 0, []
+    for (req, iresp, ml) in selfcases[:6]:
+        alts = [a.strip() for a in ml.split("|")]    # a model answer may list several acceptable values
+        bump = lambda a: (a[:-1] + ("1" if a[-1:] != "1" else "2")) if a else "x"
+        for wrong in (" | ".join(a + "~" for a in alts), " | ".join(bump(a) for a in alts)):
+            if iresp in [w.strip() for w in wrong.split("|")]:
+                continue
+            if wrong == iresp:
+                continue
+            res.selftests += 1
+            still_same = compare(req, iresp, wrong) if compare else (iresp == wrong)
+            if still_same:
+                res.selftest_failures.append((req, iresp, wrong))
     allreq = requests
     idxs = sorted(set([0, len(allreq) - 1, len(allreq) // 2, len(allreq) // 3, (2 * len(allreq)) // 3]))
     res.samples = [allreq[i] for i in idxs]
